@@ -26,6 +26,10 @@ def cases(tier, seed):
                 cs.append(("fractional", rs, ws))
             for ws in itertools.product([F(1), F(2)], repeat=nb):
                 cs.append(("random", rs, ws))
+    # large / awkward rational weights: transfer values with denominators far above 10^3 and 10^6
+    big = [F(1511), F(997, 3), F(1234577, 2), F(7919)]
+    for i, rs in enumerate(itertools.combinations_with_replacement(rk, 2)):
+        cs.append(("fractional-big", rs, (big[i % 4], big[(i + 1) % 4])))
     if tier == "thorough":
         rng = random.Random(seed)
         rk4 = gen.rankings(gen.NAMES[:4])
@@ -59,10 +63,14 @@ def check_case(case):
            "nontrivial": len(set(rs)) >= 2 and led > 1}
     desc0 = {"ballots": [[[sorted(s) for s in r], str(w)] for r, w in bl], "winner": winner}
     tallies = [t for t in {led, led + 1} if t >= 1]
+    if kind == "fractional-big":
+        kind = "fractional"
+        tallies = [led] if led >= 1 else []
     for tally in tallies:
         if kind == "random" and tally != int(tally):
             continue
-        for T in range(1, int(tally) + 1):
+        Ts = range(1, int(tally) + 1) if tally <= 8 else sorted({1, 2, int(tally) // 2, int(tally) // 3 + 1, int(tally) - 1, int(tally)})
+        for T in Ts:
             ballots = tuple(Ballot(ranking=r, weight=w) for r, w in bl)
             desc = dict(desc0, tally=str(tally), threshold=T, rule=kind)
             out["evals"] += 1
@@ -159,5 +167,15 @@ class _Stop(Exception):
 
 
 def run(tier="quick", seed=0):
-    return common.run("bounded.C03", cases(tier, seed), bound="<=3 ballots x 3 candidates, tally<=7 (quick); <=5 ballots x 4 candidates random (thorough)",
-                      rule=RULE, budget_s=150 if tier == "quick" else 1200)
+    r = common.run("bounded.C03", cases(tier, seed), bound="<=3 ballots x 3 candidates, tally<=7 (quick); <=5 ballots x 4 candidates random (thorough)",
+                   rule=RULE, budget_s=150 if tier == "quick" else 1200)
+    # conservation across whole STV counts: the round-by-round audit of C02 (tallies of every round are recomputed from
+    # the ballots the documented step produces, so created / lost weight shows as a tally mismatch)
+    from . import C02
+    r2 = C02.run(tier, seed, only_prefix="C02:", subsample=2 if tier == "quick" else 1)
+    for k in ("evaluations", "distinct_nontrivial", "cases", "bounded_wall_s"):
+        r[k] += r2[k]
+    r["exhaustive"] = r["exhaustive"] and r2["exhaustive"]
+    for v in r2["violations"]:
+        r["violations"].append(dict(v, key="C03:stv-run:" + v["key"]))
+    return r
